@@ -1923,6 +1923,8 @@ def m_ceil(interp, v):
     c = ctx()
     if isinstance(v, SInt):
         return v
+    if isinstance(v, SU64):
+        return SInt(core.Z.BV2Int(v.t, False))
     if isinstance(v, STrueDiv):
         a, b = v.a, v.b
         if isinstance(a, SU64):
